@@ -256,4 +256,102 @@ ArrayFromRange(n, s) == IF Len(s) = n THEN Some(s) ELSE None
 TupleMapR(t, s) == ArrayMapR(t, s)
 TupleConcat(ts) == Flatten(ts)
 TuplePushBack(a, x) == Append(a, x)
+
+----------------------------------------------------------------------------
+(* EXTENSION ROUND: the remaining helpers of fcppt.algorithm / container / array / tuple / enum_ /
+   range.  Each definition quotes the sentence of the header it transcribes. *)
+
+(* algorithm::equal - "Compares two ranges for equality." (std::equal with both ends) *)
+Equal(s, t) == Len(s) = Len(t) /\ \A i \in Indices(s) : s[i] = t[i]
+
+(* container::contains - "Checks if a container has a key." *)
+ContainsKey(keys, k) == \E i \in Indices(keys) : keys[i] = k
+(* container::find_opt(_iterator) - "If _key is found, its iterator is returned [find_opt: the
+   element]. Otherwise, the empty optional is returned."  Position in the sorted key sequence *)
+KeyOf(ek, e) == IF ek = 0 THEN e ELSE e[1]
+FindElemR(ek, xs, k) ==
+  LET i == FirstIdx(xs, LAMBDA e : KeyOf(ek, e) = k)
+  IN IF i <= Len(xs) THEN [pos |-> Some(i - 1), elem |-> Some(xs[i])] ELSE [pos |-> None, elem |-> None]
+(* container::insert - "\return Whether the value was inserted."; associative container with unique keys *)
+InsertSetR(a, x) == [r |-> x \notin RangeOf(a), st |-> SortedSeqOf(RangeOf(a) \cup {x})]
+InsertMapR(m, k, x) ==
+  [r |-> k \notin Keys(m), st |-> IF k \in Keys(m) THEN m ELSE PairsSorted(RangeOf(m) \cup {<<k, x>>})]
+(* container::make - "Creates a container from variadic arguments by moving." *)
+ContainerMake(tgt, args) == Into(tgt, args)
+(* maybe_front / maybe_back - "Returns the front [back] of a container as an optional."; the
+   optional is a reference: the harness adds bump through it *)
+MaybeFront(s) == IF s = <<>> THEN None ELSE Some(s[1])
+MaybeBack(s) == IF s = <<>> THEN None ELSE Some(s[Len(s)])
+MaybeFrontMutR(s, bump) == [r |-> MaybeFront(s), st |-> IF s = <<>> THEN s ELSE [s EXCEPT ![1] = @ + bump]]
+MaybeBackMutR(s, bump) == [r |-> MaybeBack(s), st |-> IF s = <<>> THEN s ELSE [s EXCEPT ![Len(s)] = @ + bump]]
+(* pop_front / pop_back - "Pops the front [back] of a container as an optional." *)
+PopFrontR(s) == [r |-> MaybeFront(s), st |-> IF s = <<>> THEN s ELSE Tail(s)]
+PopBackR(s) == [r |-> MaybeBack(s), st |-> IF s = <<>> THEN s ELSE SubSeq(s, 1, Len(s) - 1)]
+(* container::size - "Uses size() if possible, otherwise calculates the distance from begin to end." *)
+SizeOf(s) == Len(s)
+(* container::data / data_end - "Returns a pointer to the beginning [one past the end] of
+   _container, or the null pointer if _container is empty." *)
+DataR(s) == [null |-> s = <<>>, len |-> Len(s), first |-> MaybeFront(s)]
+
+(* text forms.  Elements are single digits 0..9 (code point 48 + x), ',' = 44.
+   container::output "[a,b]", array output "[a,b]", tuple output "(a,b)",
+   enum array output "[name=value,...]" *)
+Digit(x) == <<48 + x>>
+Delimited(open, close, pieces) == <<open>> \o JoinStrings(pieces, <<44>>) \o <<close>>
+SeqText(s) == Delimited(91, 93, [i \in Indices(s) |-> Digit(s[i])])
+TupleText(s) == Delimited(40, 41, [i \in Indices(s) |-> Digit(s[i])])
+EnumArrayText(names, s) == Delimited(91, 93, [i \in Indices(s) |-> names[i] \o <<61>> \o Digit(s[i])])
+
+(* container::index_map - "This container is a wrapper around a vector that grows on demand. If the
+   container is accessed with an out-of-bounds index, it inserts a new element first."
+   get: "Returns the element at index. If there is no such element, the result of insert() is
+   inserted. Note that insert might be called multiple times."  operator[]: "If there is no such
+   element, T() is inserted."  State = the vector; gen(j) = value of the j-th call (0-based) of
+   insert() within this access; the result is a reference (bump added through it). *)
+IndexMapGrow(st, i, gen(_)) ==
+  IF i < Len(st) THEN st ELSE st \o [j \in 1..(i + 1 - Len(st)) |-> gen(j - 1)]
+IndexMapGetR(st, i, gen(_), bump) ==
+  LET g == IndexMapGrow(st, i, gen)
+  IN [r |-> g[i + 1], calls |-> Len(g) - Len(st), st |-> [g EXCEPT ![i + 1] = @ + bump]]
+IndexMapSubscriptR(st, i, bump) == LET e == IndexMapGetR(st, i, LAMBDA j : 0, bump) IN [r |-> e.r, st |-> e.st]
+
+(* fcppt.range - empty: "Tests if a range is empty."; size: "Returns the size of a range.";
+   singular: "Tests if a range consists of a single element."; from_pair: "Creates a range from a
+   std::pair." (of iterators at offsets i <= j); begin/end: "Calls begin [end] via ADL." *)
+RangeEmpty(s) == s = <<>>
+RangeSize(s) == Len(s)
+RangeSingular(s) == Len(s) = 1
+RangeFromPair(s, i, j) == SubSeq(s, i + 1, j)
+
+(* fcppt.array - apply: "Calls _function(e, e_1, ..., e_n) for every e of _array1 and e_1, ..., e_n
+   of _arrays."; make: "The result is fcppt::array::object<T,n>{a_1,...,a_n}"; members *)
+ArrayApplyR(t2, a, b) ==
+  [r |-> [i \in Indices(a) |-> t2[a[i] + 1][b[i] + 1]], log |-> [i \in Indices(a) |-> <<a[i], b[i]>>]]
+ArrayMembersR(s) == [size |-> Len(s), unsafe |-> s, get |-> s, iter |-> s, data |-> s]
+(* array output / comparison: see SeqText / = *)
+
+(* fcppt.tuple - apply: "Calculates r_j = _function(u_{1,j}, ..., u_{n,j}) for every 1 <= j <= k";
+   invoke: "Let _tuple = (x_1,...,x_n). Then the result is f(x_1,...,x_n)." (the harness's f logs its
+   arguments and returns table[(x_1 + ... + x_n) mod 3]); from_array; make; init: "calling
+   _function(std::integral_constant<std::size_t, Index>) for every index" *)
+SeqSum(s) == LET S[k \in 0..Len(s)] == IF k = 0 THEN 0 ELSE S[k - 1] + s[k] IN S[Len(s)]
+TupleApplyR(t2, a, b) == ArrayApplyR(t2, a, b)
+TupleInvokeR(t, s) == [r |-> Ap(t, SeqSum(s) % 3), log |-> <<s>>]
+TupleFromArray(s) == s
+TupleInitR(n, t) == ArrayInitR(n, t)
+
+(* fcppt.enum_ (enumerators 0..n-1) - array_init: "calling
+   _function(std::integral_constant<Array::enum_type,E>) for every enumerator E"; array operator[]
+   "takes a parameter of type Enum" (reference: bump added through it); index_of_array: "returns the
+   index of the first occurrence as an enum if there is any, otherwise returns the empty optional";
+   to_static: passes the enumerator as a static constant to the function and returns its result;
+   names: the array of to_string of every enumerator; from_string: "The default implementation
+   iterates over all outputs of to_string" -> first enumerator with that name;
+   min_value = 0, max_value = fcppt_maximum, size = "max_value + 1" *)
+EnumArrayInitR(n, t) == [r |-> [i \in 1..n |-> Ap(t, (i - 1) % 3)], log |-> [i \in 1..n |-> i - 1]]
+EnumArrayAtR(s, e, bump) == [r |-> s[e + 1], st |-> [s EXCEPT ![e + 1] = @ + bump]]
+EnumIndexOfArray(s, v) == FindOpt(s, v)
+EnumToStaticR(t, e) == [r |-> Ap(t, e % 3), log |-> <<e>>]
+EnumFromString(names, str) == FindOpt(names, str)
+EnumConstsR(max) == [min |-> 0, max |-> max, size |-> max + 1]
 =============================================================================
